@@ -55,7 +55,7 @@ CF == c.fam # "H1" /\ CoincidenceFree(ProgOf(c), c.roots)
 M_Unfaithful == {id \in Ids(reg) : LET r == ResolveTypePath(reg, S, id) IN r.err = "" /\ ~FaithfulTop(reg, S, ModelRoot, id, r.ty)}
 M_PathErrors == {id \in Ids(reg) : ResolveTypePath(reg, S, id).err # ""}
 M_C01 == gst.res = "ok" => (M_Unfaithful = {} /\ M_PathErrors = {})
-M_C02 == gst.res = "ok" => RustWfFailed(S, ModelFile) = {}
+M_C02 == gst.res = "ok" => (RustWfFailed(S, ModelFile) = {} /\ CompactAsOKSet(S, ModelRoot))
 M_C10 == gst.res \in {"ok", "DuplicateTypePath"}
 
 \* refinement of the shape comparison: equal verdict => the candidate items coincide (known design findings otherwise)
